@@ -1,3 +1,49 @@
+(* C11/Float.v — what does NOT carry over from the reals to binary64: `Subframe.is_regular` compares
+   with ==, and the intersection wavelength (1 - t) * w_i + t * w_j of an edge with w_i == w_j need
+   not round to w_i.  The witness below is the model of the text of `_chop` BEFORE
+   notes/fixes/C11_regular.patch (FOps0) run with Coq's primitive binary64 floats; every number is an
+   exact hexadecimal literal.  Found by the search on the implementation (props/C11.py) and confirmed
+   there: pulse [0, 3 ms] x [2, 3] angstrom, one chopper at 2 m open from 1.8875...ms to 3.6402...ms;
+   Frame.subbounds() raises NotImplementedError.  With the patch (FOps) the same input is regular. *)
 From Coq Require Import List Bool PrimFloat.
 From Verif.C11 Require Import Clip Inst.
 Import ListNotations.
+Open Scope float_scope.
+
+Definition MN : float := 0x1.096721994f0e8p-89.      (* sc.constants.m_n *)
+Definition H : float := 0x1.b860bde023111p-111.      (* sc.constants.h *)
+Definition wit_windows : list (float * float) := [(0x1.eecc2c3c53857p-10, 0x1.dd23920b613c2p-9)].
+Definition wit (O : COps) (conv : float -> T O) : option (list (frame O)) :=
+  seq_chop O [mkchopper (O:=O) (conv 2) (map (fun w => (conv (fst w), conv (snd w))) wit_windows)]
+           (source O (conv 0) (conv 0x1.89374bc6a7efap-9) (conv 2) (conv 3)).
+Definition fid (x : float) : float := x.
+
+(* the arithmetic core: for s = 0x1.5555555555553p-2 (the parameter of the witness' second cut of the
+   edge of constant wavelength 3), (1 - s)*3 + s*3 is the double below 3 *)
+Example interpolation_not_exact :
+  exists s : float, PrimFloat.leb 0 s = true /\ PrimFloat.leb s 1 = true /\
+                    PrimFloat.eqb ((1 - s) * 3 + s * 3) 0x1.7ffffffffffffp+1 = true.
+Proof. exists 0x1.5555555555553p-2. vm_compute. repeat split. Qed.
+
+(* regular_float_refuted: in binary64 the unpatched algorithm produces, from a forward cascade, a
+   subframe that fails is_regular, and subbounds takes its NotImplementedError branch *)
+Lemma regular_float_refuted :
+  exists s fr, wit (FOps0 MN H) fid = Some s /\ In fr s /\
+               forallb (is_regular (FOps0 MN H)) (fpolys fr) = false /\
+               subbounds (FOps0 MN H) fr = inr true /\
+               map (map snd) (fpolys fr) = [[2; 2; 0x1.7ffffffffffffp+1; 3]].
+Proof.
+  destruct (wit (FOps0 MN H) fid) as [s|] eqn:E; [|vm_compute in E; discriminate].
+  exists s, (last s (empty_frame (FOps0 MN H))).
+  vm_compute in E. inversion E; subst s. vm_compute. repeat split. right; left; reflexivity.
+Qed.
+
+(* with C11_regular.patch the same cascade is regular and subbounds returns *)
+Example regular_float_witness_fixed :
+  exists s, wit (FOps MN H) fid = Some s /\
+            forallb (fun fr => forallb (is_regular (FOps MN H)) (fpolys fr)) s = true /\
+            map (fun fr => map (map snd) (fpolys fr)) s = [[[2; 2; 3; 3]]; [[2; 2; 3; 3]]].
+Proof.
+  destruct (wit (FOps MN H) fid) as [s|] eqn:E; [|vm_compute in E; discriminate].
+  exists s. vm_compute in E. inversion E; subst s. vm_compute. repeat split.
+Qed.
